@@ -33,6 +33,7 @@ package faucetsc
 //@ func (*FaucetSmartContract).pour
 //@   prop C17
 //@   requires fc != nil && t != nil && gn != nil && gn.FaucetConfig != nil
+//@   dead-paths 2 -- the two AddCoin overflow returns after a successful validPourRequest (sums already bounded by the limits)
 //@   at-call AddTransfer assert transfer.ClientID == t.ToClientID && transfer.ToClientID == t.ClientID
 //@   at-call AddTransfer assert[balance] transfer.Amount <= $bal[gn.ID]
 //@   at-call AddTransfer assert[periodic-limit] transfer.Amount + user.Used <= gn.PeriodicLimit
